@@ -45,7 +45,7 @@ struct Case {
 
 static Case gen_case() {
   Case c;
-  c.cfg = gen_config(/*many_blocks*/ chance(90), /*allow_pool*/ false);
+  c.cfg = gen_config(/*many_blocks*/ chance(90), /*allow_pool*/ true);
   c.cfg.by_path = false;
   c.cfg.restart = one_of<int>({1, 2, 3, 4, 16, 16});
   KeyUniverse u = gen_universe();
